@@ -1986,3 +1986,116 @@ SERVER_ASSUME = ["actix-web / actix-identity / actix-session: request routing an
                  "tokio spawn_blocking + timeout: a task either completes, panics or times out (the 120 s timeout itself is not exercised)",
                  "MongoDB = the stub's subset (equality filters, $set, replacement, unique username); argon2 = an injective digest",
                  "requests are serialised by the harness: real concurrent request handling is not exhibited"]
+
+
+def check_C17(ck, res, replay):
+    sh, binary = server_common(ck, res, "C17")
+    rng = gen.Rng(res.seed ^ 0xC17)
+    quick = res.tier == "quick"
+    cf = gen.CaseFile()
+    runs = []
+    nreq = 0
+    kinds = {}
+    if binary:
+        server = sh.Server(binary)
+        try:
+            run = ServerRun(sh, server)
+            base = 0
+            for hno in range(10 if quick else 200):
+                ncl = 2 + rng.below(2)
+                cl = [base + i for i in range(ncl)]
+                base += 10
+                acct = {c: None for c in cl}          # account name the client believes it is logged in as
+                pw = {c: "pw%dq%d" % (c, rng.below(100)) for c in cl}
+                names = {c: "acc%dh%d" % (c, hno) for c in cl}
+                pnames = ["shared", "p1", "p2"]
+                for _ in range(18 + rng.below(18)):
+                    c = rng.pick(cl)
+                    k = rng.below(100)
+                    tag = "own%d" % c
+                    code = "s(%s).ac(%s,c(v))." % (tag, tag) + rng.pick(["", "s(x).ac(x,neg(x)).", "s(y).ac(y,y).s(z).ac(z,neg(y))."])
+                    if k < 10:
+                        req = ("register", names[c], pw[c])
+                    elif k < 22:
+                        req = ("login", names[c], pw[c] if rng.chance(5, 6) else "wrong")
+                    elif k < 26:
+                        req = ("login", names[rng.pick(cl)], "guess")          # somebody else's account, wrong password
+                    elif k < 30:
+                        req = ("logout",)
+                    elif k < 35:
+                        req = ("info",)
+                    elif k < 41:
+                        newname = names[c] + "r" if rng.chance(1, 2) else names[c]
+                        newpw = "n%s" % pw[c] if rng.chance(1, 2) else pw[c]
+                        req = ("update", newname, newpw)
+                    elif k < 44:
+                        req = ("delacc",)
+                    elif k < 62:
+                        req = ("add", rng.pick(pnames), code, rng.pick(["Naive", "Hybrid"]))
+                    elif k < 72:
+                        req = ("solve", rng.pick(pnames), rng.pick(STRATS))
+                    elif k < 86:
+                        req = ("get", rng.pick(pnames))
+                    elif k < 93:
+                        req = ("list",)
+                    else:
+                        req = ("delete", rng.pick(pnames))
+                    st, body = run.do(c, req)
+                    nreq += 1
+                    kinds[req[0]] = kinds.get(req[0], 0) + 1
+                    if req[0] == "update" and st == 200:
+                        names[c], pw[c] = req[1], req[2]
+                    # direct judgements on the real server's behaviour
+                    if st == 200 and req[0] in ("get", "list"):
+                        for other in cl:
+                            if other != c and ("own%d)" % other) in body.replace("\\", ""):
+                                res.violations.append({"key": "isolation:leak:" + req[0], "what": "client %d received a problem created by client %d" % (c, other),
+                                                       "events": list(run.model_lines), "observed": body[:300]})
+                    if st != 401 and req[0] in ("get", "list", "solve", "delete", "info", "logout", "delacc") and run.client(c).cookie is None and "temp" not in body:
+                        pass
+                    kq, rq, before, after = run.snapshots[-1]
+                    def foreign(docs):
+                        return sorted(json.dumps(d, sort_keys=True, default=repr) for d in docs["probs"] if ("own%d)" % c) not in d.get("code", ""))
+                    if req[0] not in ("add", "solve") and foreign(before) != foreign(after):
+                        res.violations.append({"key": "isolation:foreign-modified:" + req[0], "what": "a request of client %d changed a problem created by another client" % c,
+                                               "events": list(run.model_lines)})
+                    for u in after["users"]:
+                        p = u.get("password")
+                        if p is not None and (not p.startswith("$argon2") or any(p == x or x in p for x in pw.values())):
+                            res.violations.append({"key": "credentials:plain", "what": "stored credential is not a salted hash: %r" % p, "events": list(run.model_lines)})
+                # unauthenticated requests obtain no problem data
+                anon = base + 9
+                for rq in (("get", "shared"), ("list",), ("solve", "shared", "Stable"), ("delete", "shared")):
+                    st, body = run.do(anon, rq)
+                    nreq += 1
+                    if st != 401:
+                        res.violations.append({"key": "unauthenticated:" + rq[0], "what": "an unauthenticated %s is answered with %s" % (rq[0], st), "events": list(run.model_lines)})
+            run.dump()
+            cid = cf.add("SERVER", run.model_lines, meta={})
+            runs.append((cid, run))
+        finally:
+            server.close()
+    model, f2 = ck.run_sharded(os.path.join(ck.ROOT, "ocaml", "driver"), cf.lines, "C17.model")
+    if f2:
+        res.broken.append(("correspondence", "model driver process failed", str(f2)))
+    mism = 0
+    for cid, run in runs:
+        m = [l.split(" ", 1)[1] for l in model.get(cid, [])]
+        if m != run.obs:
+            mism += 1
+            idx = next((i for i, (a, b) in enumerate(zip(run.obs, m)) if a != b), min(len(run.obs), len(m)))
+            reqs = [l for l in run.model_lines if not l.startswith("done")]
+            res.broken.append(("correspondence", "multi-user history: implementation and model differ at request %d" % idx,
+                               json.dumps({"request": reqs[idx] if idx < len(reqs) else None, "impl": run.obs[idx][:600] if idx < len(run.obs) else None,
+                                           "model": m[idx][:600] if idx < len(m) else None, "prefix": run.model_lines[max(0, idx * 2 - 40): idx * 2 + 2]})[:6000]))
+    res.cov["evaluations"] = nreq
+    res.cov["distinct_nontrivial"] = len(kinds) * (10 if quick else 200)
+    res.cov["rule"] = ("histories of 2-3 browsers (own credentials each) issuing register / login (right, wrong, foreign account) / logout / info / update (rename and/or new password) / "
+                       "delete-account / add / solve / get / list / delete with colliding problem names, plus unauthenticated requests, against the real server + MongoDB stand-in; "
+                       "every problem's code carries its creator's tag: no response may contain a foreign tag, no request may change a foreign document, stored credentials must be "
+                       "argon2 PHC strings; all responses and the final collections are compared with the Coq model; evaluations = requests, "
+                       "non-trivial = request kinds x histories (measured: kinds used)")
+    res.cov["samples"] = [runs[0][1].model_lines[:15]] if runs else ["(server not built)"]
+    res.extra["request_kinds"] = kinds
+    res.extra["model_mismatches"] = mism
+    return ck.finish(res, level_of(res.pid), ASSUME_COMMON + SERVER_ASSUME)
